@@ -377,7 +377,33 @@ int main(int argc, char **argv)
       } else {
         bool xb = (a.size() > p && a[p] == "XGRID");
         colvar_grid<double> *g = state_grid(proxy->colvars, sp, xb);
-        if (xb || (a.size() > p && a[p] == "GRID")) {
+        if (a.size() > p && a[p] == "CUR") {
+          // SW <sspec> CUR z.. : the variables are evaluated at z.. (one engine step) and the overloads that take the
+          // current values of the variables are called: current_bin_scalar, _bound, _fraction, get_colvars_index(_bound),
+          // current_bin_flat_bound
+          p++;
+          for (int d = 0; d < sp.nd; d++) eng.pos[d] = cvm::rvector(0, 0, nf());
+          proxy->step();
+          cvm::clear_error();
+          std::cout << "V";
+          for (int d = 0; d < sp.nd; d++) std::cout << " " << vs_hex(g->cv[d]->value().real_value);
+          std::cout << " B";
+          for (int d = 0; d < sp.nd; d++) std::cout << " " << g->current_bin_scalar(d);
+          std::cout << " BB";
+          for (int d = 0; d < sp.nd; d++) std::cout << " " << g->current_bin_scalar_bound(d);
+          std::cout << " F";
+          for (int d = 0; d < sp.nd; d++) std::cout << " " << vs_hex(g->current_bin_scalar_fraction(d));
+          std::vector<int> i1 = g->get_colvars_index(), i2 = g->get_colvars_index_bound();
+          std::cout << " I";
+          for (int d = 0; d < sp.nd; d++) std::cout << " " << i1[d];
+          std::cout << " IB";
+          for (int d = 0; d < sp.nd; d++) std::cout << " " << i2[d];
+          std::cout << " FLAT " << g->current_bin_flat_bound() << " NX";
+          for (int d = 0; d < sp.nd; d++) std::cout << " " << g->nx[d];
+          std::cout << " P";
+          for (int d = 0; d < sp.nd; d++) std::cout << " " << (g->periodic[d] ? 1 : 0);
+          std::cout << "\n";
+        } else if (xb || (a.size() > p && a[p] == "GRID")) {
           // only the grid as init_from_colvars/init_from_boundaries/setup leave it
           print_grid(*g);
         } else if (cmd == "SW") {
